@@ -31,10 +31,15 @@ Advance(r, D) ==
        /\ (done => PrintT(<<"V", ToJson([tid |-> Traces[tid].tid, v |-> "ok", at |-> i,
                                          devs |-> devs \cup D, cut |-> r.term])>>))
 
+\* a known deviation that corrupts the STATE without showing in this step's observation (e.g. CLONE losing NOT NULL):
+\* same observation as the ideal, another post-state - both continuations are followed, later steps tell them apart
+Silent(e, id) == {<<d, r>> \in Known \X UNION {Match({d}, e) : d \in Known} :
+                    r \in Match({d}, e) /\ \A x \in id : x.post # r.post}
 JStep ==
   /\ verdict = "run" /\ i <= Len(Ev) /\ UNCHANGED tid
   /\ LET e == Ev[i]  id == Match({}, e) IN
-       IF id # {} THEN \E r \in id : Advance(r, {})
+       IF id # {} THEN \/ \E r \in id : Advance(r, {})
+                       \/ \E x \in Silent(e, id) : Advance(x[2], {x[1]})
        ELSE LET mc == MinC(e) IN
             IF mc # {} THEN \E D \in mc : \E r \in Match(D, e) : Advance(r, D)
             ELSE /\ verdict' = "fail" /\ UNCHANGED <<st, i, devs>>
